@@ -75,10 +75,20 @@ where
         (entry, stream) => {
             let owning = *entry == Entry::BuilderOwning;
             let mut b = hannibal::build(actor);
-            if let Some(t) = spec.timeout {
-                b = b.timeout(Duration::from_millis(t));
+            // stream builders have no configuration stage of their own: everything on the base
+            let late = spec.cfg_order >= 2 && stream.is_none();
+            let fail_first = spec.cfg_order % 2 == 1;
+            if !late {
+                if fail_first {
+                    b = b.fail_on_timeout(spec.fail_on_timeout);
+                }
+                if let Some(t) = spec.timeout {
+                    b = b.timeout(Duration::from_millis(t));
+                }
+                if !fail_first {
+                    b = b.fail_on_timeout(spec.fail_on_timeout);
+                }
             }
-            b = b.fail_on_timeout(spec.fail_on_timeout);
             if let Some(s) = stream {
                 let st = mk_stream(aid, s);
                 let sb = match spec.bound {
@@ -87,10 +97,21 @@ where
                 };
                 if owning { Spawned::O(sb.spawn_owning()) } else { Spawned::A(sb.spawn()) }
             } else {
-                let wc = match spec.bound {
+                let mut wc = match spec.bound {
                     Some(n) => b.bounded(n),
                     None => b.unbounded(),
                 };
+                if late {
+                    if fail_first {
+                        wc = wc.fail_on_timeout(spec.fail_on_timeout);
+                    }
+                    if let Some(t) = spec.timeout {
+                        wc = wc.timeout(Duration::from_millis(t));
+                    }
+                    if !fail_first {
+                        wc = wc.fail_on_timeout(spec.fail_on_timeout);
+                    }
+                }
                 macro_rules! fin {
                     ($x:expr) => {
                         if owning { Spawned::O($x.spawn_owning()) } else { Spawned::A($x.spawn()) }
